@@ -32,6 +32,20 @@ def check(ctx: Ctx) -> None:
     r3(ctx)
     r4(ctx)
     r5(ctx)
+    # every scan API prunes files by bounds before filtering: the pruning decision and the bound codec are part of
+    # "returns exactly the rows satisfying the filter"
+    from .c13 import r1r2 as c13_r1r2, r4 as c13_r4, r5r6 as c13_r5r6
+    n0 = len(ctx.obs)
+    c13_r1r2(ctx)
+    c13_r4(ctx)
+    c13_r5r6(ctx)
+    ren = {"C13.R1": "C12.R6", "C13.R2": "C12.R7", "C13.R4": "C12.R8", "C13.R5": "C12.R9", "C13.R6": "C12.R10"}
+    for o in ctx.obs[n0:]:
+        o.rule = ren.get(o.rule, o.rule)
+    for a, b in ren.items():
+        if a in ctx.rule_text:
+            ctx.rule_text[b] = ctx.rule_text.pop(a)
+            ctx.floors[b] = ctx.floors.pop(a)
 
 
 def enum_members(ctx: Ctx) -> List[str]:
